@@ -28,7 +28,11 @@ func VerifPbGen(name string, depth int, width []int, strLen int) *structpb.Value
 			below = width[1:]
 		}
 	}
-	switch vt.Choose(name+"k", nk) {
+	kind := vt.ParamInt("pin."+name+"k", -1) // a job may pin the kind of a node (splits the shape space over jobs)
+	if kind < 0 || kind >= nk {
+		kind = vt.Choose(name+"k", nk)
+	}
+	switch kind {
 	case 0:
 		return nil // absent value (nil pointer)
 	case 1:
@@ -61,18 +65,41 @@ func VerifPbGen(name string, depth int, width []int, strLen int) *structpb.Value
 	}
 }
 
-// VerifPbStruct: a struct with n fields whose keys are symbolic and pairwise different.
-func VerifPbStruct(name string, n, depth int, width []int, strLen int) *structpb.Struct {
-	s := &structpb.Struct{Fields: map[string]*structpb.Value{}}
+// VerifPbKeys: n pairwise different map keys. A single key is an arbitrary string. Several keys get a
+// concrete, pairwise different first byte ('a'+rank, every assignment of ranks to positions by fork) and a
+// tail of strLen-1 symbolic bytes, which keeps the order in which WriteTo's sort leaves them concrete on
+// each path (a symbolic order makes the explicit stack of WriteTo a merge of all orders).
+func VerifPbKeys(name string, n, strLen int) []string {
+	if n == 1 {
+		return []string{vt.String(name+"key0", strLen)}
+	}
 	var ks []string
+	var ranks []int
 	for i := 0; i < n; i++ {
 		p := string(rune('0' + i))
-		k := vt.String(name+"key"+p, strLen)
-		for _, o := range ks {
-			vt.Assume(k != o)
+		r := vt.Choose(name+"rank"+p, n)
+		for _, o := range ranks {
+			vt.Assume(r != o)
 		}
-		ks = append(ks, k)
-		s.Fields[k] = VerifPbGen(name+"f"+p, depth, width, strLen)
+		ranks = append(ranks, r)
+		tail := ""
+		if strLen > 1 {
+			// exactly strLen-1 symbolic bytes: with a concrete length the comparison of two keys is decided
+			// by their (concrete) first bytes already in the engine's term simplifier
+			tail = vt.String(name+"key"+p, strLen-1)
+			vt.Assume(len(tail) == strLen-1)
+			tail = tail[:strLen-1]
+		}
+		ks = append(ks, string(rune('a'+r))+tail)
+	}
+	return ks
+}
+
+// VerifPbStruct: a struct with n fields (keys: VerifPbKeys).
+func VerifPbStruct(name string, n, depth int, width []int, strLen int) *structpb.Struct {
+	s := &structpb.Struct{Fields: map[string]*structpb.Value{}}
+	for i, k := range VerifPbKeys(name, n, strLen) {
+		s.Fields[k] = VerifPbGen(name+"f"+string(rune('0'+i)), depth, width, strLen)
 	}
 	return s
 }
@@ -166,16 +193,10 @@ func VerifK24bPbValueInjective() {
 func VerifK24bPbValuePermute() {
 	d, L := vt.ParamInt("depth", 1), vt.ParamInt("str", 2)
 	n := vt.Choose("n", vt.ParamInt("fields", 3)) + 1
-	var ks []string
+	ks := VerifPbKeys("p", n, L)
 	var vs []*structpb.Value
 	for i := 0; i < n; i++ {
-		p := string(rune('0' + i))
-		k := vt.String("key"+p, L)
-		for _, o := range ks {
-			vt.Assume(k != o)
-		}
-		ks = append(ks, k)
-		vs = append(vs, VerifPbGen("v"+p, d, verifK24Widths(), L))
+		vs = append(vs, VerifPbGen("v"+string(rune('0'+i)), d, verifK24Widths(), L))
 	}
 	fwd := &structpb.Struct{Fields: map[string]*structpb.Value{}}
 	rev := &structpb.Struct{Fields: map[string]*structpb.Value{}}
